@@ -656,7 +656,7 @@ func c10Deep(c *Ctx) bool { return c.Tier == "thorough" }
 func runC10(c *Ctx) error {
 	r := c.Rng.Fork()
 	scs := c10FixedScenarios(r.Fork())
-	nRand := c10N(c, 2, 5)
+	nRand := c10N(c, 2, 4)
 	for i := 0; i < nRand; i++ {
 		cr := r.Fork()
 		old, nw, rel := lib.GenPair(cr, lib.PairOpts{MaxFiles: 4, MaxSize: 3 * lib.BS, Links: true})
@@ -689,7 +689,7 @@ func runC10(c *Ctx) error {
 	c10Corpus(scs, addPlan)
 
 	// --- field-level mutations ---
-	perBase := c10N(c, 40, 250)
+	perBase := c10N(c, 40, 180)
 	for _, sc := range scs {
 		type baseT struct {
 			name string
@@ -816,7 +816,7 @@ func runC10(c *Ctx) error {
 					}
 				}
 				offs := map[int]bool{}
-				every := c10N(c, 260, 500)
+				every := c10N(c, 260, 400)
 				if sc.Name != "tiny" && !c10Deep(c) {
 					every = 0
 				}
@@ -850,7 +850,14 @@ func runC10(c *Ctx) error {
 					sorted = append(sorted, o)
 				}
 				sort.Ints(sorted)
-				if max := c10N(c, 260, 500); len(sorted) > max { // thin out evenly, keep the ends
+				max := c10N(c, 260, 350)
+				if b.name == "opt" && !c10Deep(c) {
+					max = 12 // (32 MiB LRU cache per case)
+					if fr.Algo != pwr.CompressionAlgorithm_NONE {
+						max = 3
+					}
+				}
+				if len(sorted) > max { // thin out evenly, keep the ends
 					var t []int
 					for k := 0; k < max; k++ {
 						t = append(t, sorted[k*len(sorted)/max])
